@@ -93,3 +93,27 @@ fn k_dep_iter_skip() {
     let it = (0..3usize).map(move |i| d[i]).filter(|_| true);
     check_skip(it.into_con_iter());
 }
+
+/// KF-C15-1 (known finding, dependency): user chunk sizes are handed to the concurrent iterator unclamped and its
+/// position counter is a wrapping fetch_add: with chunk size 2^63 the third pull wraps the counter to 0 and
+/// delivers the first elements AGAIN (natively: `Exact(1<<63)`, 2 threads, 10 elements: count() == 20).
+#[kani::proof]
+#[kani::unwind(6)]
+fn k_dep_huge_chunk_wraps() {
+    let d = any3();
+    let mut v = Vec::with_capacity(3);
+    v.push(d[0]);
+    v.push(d[1]);
+    v.push(d[2]);
+    let it = v.into_con_iter();
+    let c: usize = 1 << 63;
+    let mut delivered = 0usize;
+    let mut k = 0;
+    while k < 3 {
+        if let Some(chunk) = it.next_chunk_x(c) {
+            delivered += chunk.len();
+        }
+        k += 1;
+    }
+    assert!(delivered == 3, "C15: with a chunk size of 2^63 the source delivers elements twice (position counter of the dependency wraps)");
+}
